@@ -28,6 +28,8 @@ def replay_history(writer, blocked, lengths, fins, readable=True):
         if k == 0:
             snap = f.getvalue()
     final = f.getvalue()
+    if readable and f.tell() != 0:
+        return True, 'finalised file left at offset %d, not at its start' % f.tell(), 'C11/rewind'
     if blocked:
         if len(final) % 1014 or any(final[j + 1012:j + 1014] != b'@@' for j in range(0, len(final), 1014)):
             return True, 'finalised blocked file of %d bytes is not valid 1014 form' % len(final), 'C11/blocked-form'
